@@ -5,6 +5,7 @@ import Driver.Ext
 import Driver.C20
 import Driver.Conv
 import Driver.View
+import Driver.Arr
 import MdspanVerif.Model.ValidB
 open Mdspan Drv
 
@@ -18,6 +19,7 @@ def step (line : String) : String :=
   | "exteq" :: t :: u :: rest => exteqLine t u rest
   | "c20" :: kind :: t :: rest => c20Line kind t rest
   | "view" :: kind :: ty :: rest => viewLine kind ty rest
+  | "arr" :: kind :: _ :: rest => arrLine kind rest
   | "conv" :: kind :: _ :: rest => convLine kind rest
   | "mapeq" :: kind :: _ :: rest => mapeqLine kind rest
   | "dot" :: rest =>
